@@ -380,7 +380,30 @@ func (m *monitor) observe() (out map[string]leafObs, mm *mismatch) {
 	}); g != nil {
 		return out, g
 	}
-	return out, mm
+	if mm != nil || !m.count {
+		return out, mm
+	}
+	// The same content must come back from the all-targets query.
+	star := map[string]*pb.Notification{}
+	if g := guard("Query", func() {
+		m.c.Query("*", []string{"*"}, func(p []string, _ *ctree.Leaf, v interface{}) error {
+			n, _ := v.(*pb.Notification)
+			star[model.Key(join([]string{n.GetPrefix().GetTarget()}, p))] = n
+			return nil
+		})
+	}); g != nil {
+		return out, g
+	}
+	if len(star) != len(out) {
+		return out, &mismatch{"query-star-differs", fmt.Sprintf("Query(*,[*]) returns %d leaves, the per-target queries %d", len(star), len(out))}
+	}
+	for k, n := range star {
+		if o, ok := out[k]; !ok || o.ptr != n {
+			return out, &mismatch{"query-star-differs", fmt.Sprintf("Query(*,[*]) returns leaf %s = %s, the per-target query does not", showKey(k), showValSem(n))}
+		}
+	}
+	m.inc("oracle_all_targets_query_agrees", 1)
+	return out, nil
 }
 
 func (m *monitor) suppressedCounter(target string) (int64, bool) {
@@ -483,6 +506,55 @@ func sameContent(a, b map[string]leafObs) (string, bool) {
 	return "", true
 }
 
+// countWindows records how often the situation the aliasing clauses aim at
+// actually occurred: one call removed several leaves whose stored
+// notifications share one prefix backing array that has spare capacity.
+func (m *monitor) countWindows(content map[string]leafObs) {
+	if !m.count {
+		return
+	}
+	removed := 0
+	elemArr := map[**pb.PathElem]int{}
+	strArr := map[*string]int{}
+	for k, o := range m.prev {
+		if _, ok := content[k]; ok {
+			continue
+		}
+		removed++
+		pre := o.ptr.GetPrefix()
+		if e := pre.GetElem(); cap(e) > len(e) {
+			elemArr[&e[:cap(e)][0]]++
+		}
+		if e := pre.GetElement(); cap(e) > len(e) {
+			strArr[&e[:cap(e)][0]]++
+		}
+	}
+	if removed == 0 {
+		return
+	}
+	m.inc("window_call_removed_leaves", 1)
+	if removed > 1 {
+		m.inc("window_call_removed_several_leaves", 1)
+	}
+	shared := false
+	for _, c := range elemArr {
+		if c > 1 {
+			shared = true
+		}
+	}
+	for _, c := range strArr {
+		if c > 1 {
+			shared = true
+		}
+	}
+	if shared {
+		m.inc("window_removed_leaves_share_prefix_array_with_spare_capacity", 1)
+	}
+	if len(elemArr)+len(strArr) > 0 {
+		m.inc("window_removed_leaf_prefix_has_spare_capacity", 1)
+	}
+}
+
 type callResult struct {
 	err      error
 	nErrs    int
@@ -524,6 +596,17 @@ func (m *monitor) classify(n *pb.Notification, content map[string]leafObs) strin
 				return "kind-flip"
 			}
 		}
+		// A leaf written and removed again by the deletes of the same call.
+		if !n.GetAtomic() && len(n.GetDelete()) > 0 {
+			for _, u := range n.GetUpdate() {
+				one := &pb.Notification{Prefix: n.GetPrefix(), Update: []*pb.Update{u}}
+				if _, still := content[updateKeys(one)[0]]; !still {
+					if c := inputClass(one); c != "" {
+						return c
+					}
+				}
+			}
+		}
 	}
 	return ""
 }
@@ -550,6 +633,7 @@ func (m *monitor) notif(n *pb.Notification) (res callResult, mm *mismatch) {
 		return res, omm
 	}
 	res.class = m.classify(pre, content)
+	m.countWindows(content)
 
 	// (5) caller's message unmodified.
 	if !proto.Equal(n, pre) {
@@ -573,64 +657,6 @@ func (m *monitor) notif(n *pb.Notification) (res callResult, mm *mismatch) {
 		if !e.n.GetAtomic() && len(e.n.GetUpdate())+len(e.n.GetDelete()) != 1 {
 			return res, &mismatch{"feed-entry-shape", fmt.Sprintf("feed entry %q carries %d updates and %d deletes", showNotif(e.n), len(e.n.GetUpdate()), len(e.n.GetDelete()))}
 		}
-	}
-
-	// (1) replay equivalence.
-	m.applyFeed()
-	if mm := m.compareShadow(content); mm != nil {
-		return res, mm
-	}
-
-	// Accounting of accepted / fed / suppressed.
-	accepted := 0
-	switch {
-	case pre.GetPrefix() == nil || !haveBefore:
-		accepted = 0
-	case pre.GetAtomic():
-		if err == nil && nUpd > 0 {
-			accepted = 1
-		}
-	default:
-		accepted = nUpd - res.nErrs
-		if accepted < 0 {
-			accepted = 0
-		}
-	}
-	var growth int64
-	if haveBefore && haveAfter {
-		growth = suppAfter - suppBefore
-	}
-	if int64(accepted-fedUpd) != growth {
-		return res, &mismatch{"suppress-accounting", fmt.Sprintf("%q: %d update(s) accepted (of %d, %d error(s) returned), %d update entries fed, suppressed counter grew by %d — accepted minus fed must equal the growth", showNotif(pre), accepted, nUpd, res.nErrs, fedUpd, growth)}
-	}
-	if !m.ed && growth != 0 {
-		return res, &mismatch{"suppressed-with-emulation-off", fmt.Sprintf("%q: suppressed counter grew by %d although event-driven emulation is disabled", showNotif(pre), growth)}
-	}
-	rejUnits := nUpd - accepted
-	if pre.GetAtomic() {
-		rejUnits = 0
-		if nUpd > 0 && accepted == 0 {
-			rejUnits = 1
-		}
-	}
-	res.rejUnits = rejUnits
-	m.fedUpd += fedUpd
-	m.suppressed += int(growth)
-	m.rejected += rejUnits
-	m.inc("decision_updates_fed", fedUpd)
-	m.inc("decision_updates_suppressed", int(growth))
-	m.inc("decision_update_units_rejected", rejUnits)
-	m.inc("decision_leaves_removed_by_deletes", fedDel)
-
-	// A call that was rejected as a whole leaves no trace.
-	if err != nil && (pre.GetPrefix() == nil || !haveBefore || pre.GetAtomic() || (accepted == 0 && nDel == 0)) {
-		if len(m.feed) != 0 {
-			return res, &mismatch{"rejected-but-fed", fmt.Sprintf("%q was rejected (%v) but %d entries were fed, first %q", showNotif(pre), err, len(m.feed), showEntry(m.feed[0].n))}
-		}
-		if why, ok := sameContent(m.prev, content); !ok {
-			return res, &mismatch{"rejected-but-changed", fmt.Sprintf("%q was rejected (%v) but the cache content changed: %s", showNotif(pre), err, why)}
-		}
-		m.inc("oracle_rejected_call_left_no_trace", 1)
 	}
 
 	// (2) withholding is justified — judged directly on single updates (the
@@ -694,6 +720,64 @@ func (m *monitor) notif(n *pb.Notification) (res callResult, mm *mismatch) {
 			}
 		}
 	}
+	// (1) replay equivalence.
+	m.applyFeed()
+	if mm := m.compareShadow(content); mm != nil {
+		return res, mm
+	}
+
+	// Accounting of accepted / fed / suppressed.
+	accepted := 0
+	switch {
+	case pre.GetPrefix() == nil || !haveBefore:
+		accepted = 0
+	case pre.GetAtomic():
+		if err == nil && nUpd > 0 {
+			accepted = 1
+		}
+	default:
+		accepted = nUpd - res.nErrs
+		if accepted < 0 {
+			accepted = 0
+		}
+	}
+	var growth int64
+	if haveBefore && haveAfter {
+		growth = suppAfter - suppBefore
+	}
+	if int64(accepted-fedUpd) != growth {
+		return res, &mismatch{"suppress-accounting", fmt.Sprintf("%q: %d update(s) accepted (of %d, %d error(s) returned), %d update entries fed, suppressed counter grew by %d — accepted minus fed must equal the growth", showNotif(pre), accepted, nUpd, res.nErrs, fedUpd, growth)}
+	}
+	if !m.ed && growth != 0 {
+		return res, &mismatch{"suppressed-with-emulation-off", fmt.Sprintf("%q: suppressed counter grew by %d although event-driven emulation is disabled", showNotif(pre), growth)}
+	}
+	rejUnits := nUpd - accepted
+	if pre.GetAtomic() {
+		rejUnits = 0
+		if nUpd > 0 && accepted == 0 {
+			rejUnits = 1
+		}
+	}
+	res.rejUnits = rejUnits
+	m.fedUpd += fedUpd
+	m.suppressed += int(growth)
+	m.rejected += rejUnits
+	m.inc("decision_updates_fed", fedUpd)
+	m.inc("decision_updates_suppressed", int(growth))
+	m.inc("decision_update_units_rejected", rejUnits)
+	m.inc("decision_leaves_removed_by_deletes", fedDel)
+
+	// A call that was rejected as a whole leaves no trace.
+	if err != nil && (pre.GetPrefix() == nil || !haveBefore || pre.GetAtomic() || (accepted == 0 && nDel == 0)) {
+		if len(m.feed) != 0 {
+			return res, &mismatch{"rejected-but-fed", fmt.Sprintf("%q was rejected (%v) but %d entries were fed, first %q", showNotif(pre), err, len(m.feed), showEntry(m.feed[0].n))}
+		}
+		if why, ok := sameContent(m.prev, content); !ok {
+			return res, &mismatch{"rejected-but-changed", fmt.Sprintf("%q was rejected (%v) but the cache content changed: %s", showNotif(pre), err, why)}
+		}
+		m.inc("oracle_rejected_call_left_no_trace", 1)
+	}
+
 	// (6) retained detached leaves.
 	if mm := m.checkRetained(); mm != nil {
 		return res, mm
@@ -787,6 +871,7 @@ func plain(names ...string) []el {
 type leafSpec struct {
 	origin string
 	path   []el
+	fam    int // length of the family prefix this leaf shares with siblings, 0 if none
 }
 
 type poolObj struct {
@@ -842,6 +927,16 @@ type world struct {
 	clock    int64
 	last     *op
 	st       stats
+	encBias  int // the encoding most notifications of this history use
+	pending  []op
+}
+
+// enc draws a path encoding: 0 = elem, 1 = deprecated element.
+func (w *world) enc() int {
+	if w.rng.Intn(4) == 0 {
+		return 1 - w.encBias
+	}
+	return w.encBias
 }
 
 var allVals = []*pb.TypedValue{
@@ -866,6 +961,7 @@ func (w *world) randEl() el {
 func newWorld(rng *rand.Rand, c cfg, st stats) *world {
 	w := &world{rng: rng, cfg: c, present: map[string]bool{}, pool: map[string]*poolObj{}, pathPool: map[string]*pb.Path{}, clock: 100, st: st}
 	w.targets = []string{"t1", "t2", "t3"}[:2+rng.Intn(2)]
+	w.encBias = rng.Intn(2)
 	nInit := 1 + rng.Intn(len(w.targets))
 	for _, t := range w.targets[:nInit] {
 		w.present[t] = true
@@ -877,8 +973,27 @@ func newWorld(rng *rand.Rand, c cfg, st stats) *world {
 		}
 		return ""
 	}
+	// One or two families of leaves below a common prefix (the leaves a
+	// producer would send with one reused prefix object), plus unrelated ones.
+	var fams []leafSpec
+	for i, n := 0, 1+rng.Intn(2); i < n; i++ {
+		p := make([]el, 1+rng.Intn(2))
+		for j := range p {
+			p[j] = w.randEl()
+		}
+		fams = append(fams, leafSpec{origin: origin(), path: p})
+	}
 	nLeaves := 4 + rng.Intn(5)
 	for i := 0; i < nLeaves; i++ {
+		if rng.Intn(10) < 6 {
+			f := fams[rng.Intn(len(fams))]
+			p := append([]el{}, f.path...)
+			for j, n := 0, 1+rng.Intn(2); j < n; j++ {
+				p = append(p, w.randEl())
+			}
+			w.leaves = append(w.leaves, leafSpec{origin: f.origin, path: p, fam: len(f.path)})
+			continue
+		}
 		d := 1 + rng.Intn(3)
 		p := make([]el, d)
 		for j := range p {
@@ -1061,6 +1176,9 @@ func (w *world) pickTarget() string {
 	if len(ps) == 0 {
 		return w.targets[w.rng.Intn(len(w.targets))]
 	}
+	if w.rng.Intn(2) == 0 {
+		return ps[0] // one busy target, so that leaves accumulate
+	}
 	return ps[w.rng.Intn(len(ps))]
 }
 
@@ -1096,10 +1214,13 @@ func (w *world) genSingle() op {
 		w.st["gen_kind_flip_scalar_onto_container"]++
 	}
 	t := w.pickTarget()
-	enc := w.rng.Intn(2)
+	enc := w.enc()
 	k := w.rng.Intn(len(ls.path) + 1)
 	if k == len(ls.path) && w.rng.Intn(3) != 0 {
 		k = w.rng.Intn(len(ls.path))
+	}
+	if ls.fam > 0 && ls.fam <= len(ls.path) && w.rng.Intn(10) < 6 {
+		k = ls.fam
 	}
 	origin := ls.origin
 	if origin == "po" {
@@ -1139,7 +1260,7 @@ func (w *world) wild(f []string) []string {
 func (w *world) genMulti() op {
 	base := w.leaves[w.rng.Intn(len(w.leaves))]
 	t := w.pickTarget()
-	enc := w.rng.Intn(2)
+	enc := w.enc()
 	k := w.rng.Intn(len(base.path))
 	if k > 2 {
 		k = 2
@@ -1201,7 +1322,7 @@ func (w *world) genAtomic() op {
 		origin = ""
 	}
 	t := w.pickTarget()
-	enc := w.rng.Intn(2)
+	enc := w.enc()
 	pre, share := w.prefixFor(t, origin, enc, cs.path)
 	subs := [][]el{plain("x"), plain("y"), plain("z", "w")}
 	n := &pb.Notification{Timestamp: w.ts(), Prefix: pre, Atomic: true}
@@ -1224,7 +1345,7 @@ func (w *world) genDelete() op {
 		ls = w.leaves[w.rng.Intn(len(w.leaves))]
 	}
 	t := w.pickTarget()
-	enc := w.rng.Intn(2)
+	enc := w.enc()
 	origin := ls.origin
 	if origin == "po" {
 		origin = ""
@@ -1281,9 +1402,58 @@ func (w *world) genMalformed() op {
 	}
 }
 
+// genBurst queues single updates of sibling leaves that all carry the very
+// same shared prefix object: a producer walking one subtree.
+func (w *world) genBurst() {
+	var fam []leafSpec
+	base := w.leaves[w.rng.Intn(len(w.leaves))]
+	k := base.fam
+	if k == 0 || k > len(base.path) {
+		k = w.rng.Intn(len(base.path))
+	}
+	for _, l := range w.leaves {
+		if l.origin == base.origin && len(l.path) >= k && hasPrefix(l.path, base.path[:k]) {
+			fam = append(fam, l)
+		}
+	}
+	t := w.pickTarget()
+	enc := w.enc()
+	origin := base.origin
+	if origin == "po" {
+		origin = ""
+	}
+	var pre *pb.Path
+	var share string
+	for i, n := 0, 2+w.rng.Intn(3); i < n; i++ {
+		if pre == nil || w.rng.Intn(4) == 0 {
+			pre, share = w.prefixFor(t, origin, enc, base.path[:k])
+		}
+		ls := fam[w.rng.Intn(len(fam))]
+		u, note := w.scalarUpdate(ls, k, enc)
+		w.pending = append(w.pending, op{kind: "notif", shape: "single", target: t, share: "burst; " + note + share,
+			n: &pb.Notification{Timestamp: w.ts(), Prefix: pre, Update: []*pb.Update{u}}})
+	}
+	w.st["gen_bursts"]++
+}
+
 func (w *world) genOp() op {
 	w.clock += 1 + int64(w.rng.Intn(2))
 	var o op
+	if len(w.pending) == 0 && w.rng.Intn(100) < 8 {
+		w.genBurst()
+	}
+	if len(w.pending) > 0 {
+		o = w.pending[0]
+		w.pending = w.pending[1:]
+		if w.rng.Intn(3) != 0 {
+			o.n.Timestamp = w.ts()
+		}
+		o.now = w.clock
+		c := o
+		w.last = &c
+		w.st["gen_"+o.kind+"_"+o.shape]++
+		return o
+	}
 	var absent []string
 	for _, t := range w.targets {
 		if !w.present[t] {
